@@ -19,7 +19,8 @@ RULE = ("operation sequences of length 2..7 on the real default stack [bottom pr
         "caller-visible error, no held lock, completion of the follow-up. distinct = distinct op sequence.")
 ASSUMPTIONS = ["operations are issued one at a time (by any thread): locks are threading.Lock without owner, so a held lock at quiescence means "
                "every later acquire blocks forever — detected deterministically by tracked locks instead of timeouts",
-               "true preemptive interleaving of two operations is not exhibited here (C11)"]
+               "the sequence streams issue one operation at a time; concurrent receives (with a failure while another thread's frame is queued) are run "
+               "with real threads under the cooperative scheduler in the 'concurrent' stream; concurrent sends are C11"]
 
 N, P = 9, 2          # layers in the assembled stack; index of the noise layer
 IDX = {"bottom": 0, "segments": 1, "noise": 2, "coder": 3, "logger": 4, "control": 5, "axolotl": 6, "protocol": 7, "top": 8}
@@ -124,6 +125,10 @@ def cases(chk):
     yield "seq", {"ops": ["q:recv-callback-raises", "q:recv-ok", "q:recv-ok", "recv-ok", "recv-ok"], "threads": [0, 0, 0, 0, 1]}
     yield "seq", {"ops": ["q:recv-ok", "q:recv-undecodable", "q:recv-ok", "recv-ok", "send-ok", "recv-ok"], "threads": [0, 0, 0, 0, 0, 0]}
     yield "seq", {"ops": ["q:recv-ok", "q:recv-rejected", "recv-ok", "recv-ok"], "threads": [0, 0, 1, 0]}
+    # two or three threads receiving at the same time, one of them hitting a failure while another's frame is already queued
+    for _ in range(chk.scale(60, 1500)):
+        nt = r.choice([2, 2, 3])
+        yield "concurrent", {"frames": [[r.choice(["ok", "ok", "fail"]) for _i in range(r.randint(1, 3))] for _t in range(nt)], "seed": r.randrange(1 << 30)}
     for _ in range(chk.scale(120, 3000)):
         n = r.randint(2, 7)
         ops = [r.choice(sk + rk) for _ in range(n)]
@@ -134,6 +139,8 @@ def cases(chk):
 
 
 def nontrivial(stream, case):
+    if stream == "concurrent":
+        return repr(case)
     return (tuple(case["ops"]), tuple(case["threads"]))
 
 
@@ -178,7 +185,88 @@ def _in_thread(fn, other):
     return box.get("v")
 
 
+def run_concurrent(chk, case):
+    """REAL threads delivering frames to the real noise layer (transport state) at the same time, under the cooperative
+    scheduler; the layer above raises for the frames marked 'fail'.  Whatever the interleaving: every thread gets its result
+    (or its exception), no lock stays held, and no frame that is not itself failing is left behind in the queue."""
+    import random
+    from lib import coop
+    from yowsup.layers import YowLayer
+    from yowsup.layers.noise.layer import YowNoiseLayer
+    from yowsup.stacks import YowStack
+    fails = []
+    tracked.uninstall()
+    coop.install()
+    try:
+        del coop.LOCKS[:]
+        delivered = []
+
+        class Up(YowLayer):
+            def receive(self, data):
+                coop.point()            # handling a frame takes time: other threads run meanwhile
+                if bytes(data).startswith(b"fail"):
+                    raise Boom("handler failed")
+                delivered.append(bytes(data))
+
+            def send(self, data):
+                self.toLower(data)
+
+        class Down(YowLayer):
+            def send(self, data):
+                pass
+
+            def receive(self, data):
+                self.toUpper(data)
+        noise = YowNoiseLayer()
+        YowStack((Down(), noise, Up()), reversed=False)
+        noisefake.to_transport(noise)
+        r = random.Random(case["seed"])
+        c = coop.Coop()
+        results = {}
+        names = []
+        for ti, frames in enumerate(case["frames"]):
+            def body(ti=ti, frames=frames):
+                for fi, kind in enumerate(frames):
+                    name = ("%s-%d-%d" % (kind, ti, fi)).encode()
+                    try:
+                        noise.receive(noisefake.wire(name))
+                        results[(ti, fi)] = "ok"
+                    except Boom:
+                        results[(ti, fi)] = "raised"
+            for fi, kind in enumerate(frames):
+                names.append((("%s-%d-%d" % (kind, ti, fi)).encode(), kind))
+            c.spawn(body)
+        err = None
+        try:
+            c.run(coop.chooser(r))
+        except coop.Deadlock as e:
+            err = e
+        ctx = "threads receiving %s, schedule %s" % (case["frames"], c.choices if len(c.choices) < 200 else c.choices[:200] + ["…"])
+        chk.hit("concurrent:threads:%d" % len(case["frames"]))
+        if err is not None:
+            fails.append(oracle("C12:concurrent-receive-blocks", "%s: %s" % (ctx, err)))
+            return fails
+        held = [l for l in coop.LOCKS if l.held]
+        if held:
+            fails.append(oracle("C12:lock-leak:concurrent", "%s: %d lock(s) still held after all threads returned" % (ctx, len(held))))
+        left = noise._incoming_segments_queue.qsize()
+        want = [n for n, k in names if k == "ok"]
+        lost = [n for n in want if n not in delivered]
+        if lost:
+            fails.append(oracle("C12:frame-stranded", "%s: %d frame(s) that do not fail were never handed upward (%d still in the layer's queue): %s"
+                                % (ctx, len(lost), left, [x.decode() for x in lost])))
+        dup = [n for n in set(delivered) if delivered.count(n) > 1]
+        if dup:
+            fails.append(oracle("C12:frame-delivered-twice", "%s: %s" % (ctx, dup)))
+        return fails
+    finally:
+        coop.uninstall()
+        tracked.install()
+
+
 def run_case(chk, stream, case):
+    if stream == "concurrent":
+        return run_concurrent(chk, case)
     from yowsup.layers.protocol_presence.protocolentities import AvailablePresenceProtocolEntity, PresenceProtocolEntity
     fails = []
     stack, insts, bottom, top, noise = build()
@@ -317,6 +405,8 @@ def run_case(chk, stream, case):
 
 
 def shrink(stream, case):
+    if stream == "concurrent":
+        return
     ops, th = case["ops"], case["threads"]
     for i in range(len(ops)):
         if len(ops) > 1:
